@@ -5,12 +5,21 @@ use crate::report::{Args, Report};
 use crate::structural::*;
 
 pub fn run(args: &Args, rep: &mut Report) {
-    let mut w = Workload {
-        args,
-        rep,
-        focus: Focus::Order,
-        lstats: Default::default(),
-    };
+    let mut w = Workload::new(args, rep, Focus::Order);
+    // fixed core corpus first (shard 0): guarantees that every gated shape is observed
+    if args.shard == 0 {
+        for dm in crate::c01::dms_available() {
+            for (doc, paths) in crate::corpus::all(dm) {
+                let f = crate::refsim::Flat::from_doc(&doc).unwrap();
+                for p in &paths {
+                    if w.run_one(&doc, &f, p, false) {
+                        w.rep.nontrivial_key(&distinct_key(&doc, p));
+                    }
+                }
+            }
+        }
+    }
+
     let dms = crate::c01::dms_available();
     // (a) complete reachable graphs of small documents
     let mut rng = args.rng(2);
